@@ -443,10 +443,16 @@ func runC18Report(c *Ctx) {
 				guarded = true
 			}
 		}
-		if guarded {
-			c.ok("(*RuleJobNeeds).VisitWorkflowPost|no cycle check with dangling references", det.Pos(), "detection is control-dependent on the flag cleared by the dangling report")
-		} else {
-			c.bad("(*RuleJobNeeds).VisitWorkflowPost|no cycle check with dangling references", det.Pos(), "cycle detection also runs when references are dangling")
+		// The statement specifies the cycle diagnostic for graphs whose references all resolve; with a dangling reference
+		// both skipping the detection and running it on the resolved edges are allowed. What is required is that the
+		// detection is not skipped for any other reason.
+		switch {
+		case guarded:
+			c.ok("(*RuleJobNeeds).VisitWorkflowPost|cycle detection whenever all references resolve", det.Pos(), "detection is control-dependent only on the flag cleared by the dangling report")
+		case onlyLoopExits(fn, det.Block()):
+			c.ok("(*RuleJobNeeds).VisitWorkflowPost|cycle detection whenever all references resolve", det.Pos(), "detection runs on every path (dangling references are simply not edges)")
+		default:
+			c.bad("(*RuleJobNeeds).VisitWorkflowPost|cycle detection whenever all references resolve", det.Pos(), "cycle detection is conditional on something other than the absence of dangling references: a cyclic graph whose references all resolve may get no diagnostic")
 		}
 	}
 	if blockInCycle(det.Block()) {
@@ -499,4 +505,20 @@ func runC18Report(c *Ctx) {
 	} else {
 		c.bad("(*RuleJobNeeds).VisitWorkflowPost|reconstruction from the back edge", fn.Pos(), "the cycle is not reconstructed from the detected back edge")
 	}
+}
+
+// onlyLoopExits: every condition controlling b is the exit test of a loop that b is not part of (such a test only says
+// that the loop, which terminates, is over).
+func onlyLoopExits(fn *ssa.Function, b *ssa.BasicBlock) bool {
+	heads := map[*ssa.BasicBlock]bool{}
+	for _, h := range loopHeaders(fn) {
+		heads[h] = true
+	}
+	for ifi := range controllingConds(b) {
+		h := ifi.Block()
+		if !heads[h] || naturalLoop(h)[b] {
+			return false
+		}
+	}
+	return true
 }
